@@ -37,6 +37,15 @@ SUMMARY = {
  'C16-agent3': 'SigV4 signing key cached until a locally computed end of day: west of UTC the old key signs requests after UTC midnight',
  'C17-agent3': 'same truncation of BLAKE2b key material as C06-agent3 (found independently)',
  'C20-agent3': 'limiter releases its lock while sleeping: concurrent streams sleep in parallel and the debt goes deeply negative',
+ 'C02-agent4': '`finally: return` in _delete_snapshot swallows a failed snapshot-object delete when the cache is disabled; chunks are collected anyway',
+ 'C03-agent4': 'delete removes each snapshot\'s chunks right after its own object: a chunk shared by two snapshots being deleted goes while the second is still listed',
+ 'C05-agent4': 'counter-based AEAD nonces restarting at 0 per adapter instance: with 64-bit nonces two processes reuse nonces under the user key',
+ 'C08-agent4': 'Local.list_files refactored so that a vanished sub-directory silently ends the listing early',
+ 'C09-agent4': 'slot acquisition tries asyncio.Queue.get_nowait() from the worker thread first (not thread-safe)',
+ 'C10-agent4': 'chunker carry-over buffer moved to an instance attribute: two live generators of one adapter share it',
+ 'C12-agent4': 'Local remembers directories it created and skips mkdir: a directory removed by another client\'s clean-up makes every retry fail',
+ 'C14-agent4': 'file extents fixed from the size seen at scan time: a file that grows or shrinks before it is read gets wrong ranges',
+ 'C18-agent4': '_delete_cached also removes the entry\'s (empty) directory: races with another client\'s mkdir + write',
  'C20-agent1': 'transfer block size floor of 16000 bytes: below 32 kB/s each block owes more than the capped debt',
 }
 rows = []
@@ -50,9 +59,12 @@ for d in sorted((V / 'seeded').iterdir()):
             if 'class=' in r:
                 cls = r.split('class=')[1].split(' ')[0]
         caught = f"{x['check']} {x.get('tier', 'quick')} ({cls}, {x['seconds']} s)"
+    elif m.get('history', '').startswith('NOT caught, by decision'):
+        caught = 'not caught (outside the properties\' quantifiers, see meta.json)'
     else:
         caught = 'MISSED by ' + ', '.join(x['check'] for x in m.get('missed_by', []))
-    first = 'missed -> strengthened' if m.get('history', '').startswith(('First missed', 'Hard one', 'Registered', 'Same mechanism')) else 'caught'
+    h = m.get('history', '')
+    first = 'missed -> strengthened' if h.startswith(('First missed', 'Hard one', 'Same mechanism')) else ('needed another check / fault kind' if h.startswith('Registered') else ('-' if h.startswith('NOT caught') else 'caught'))
     if m.get('history', '').startswith('Caught by the Local profile'):
         first = 'caught (by a profile built meanwhile)'
     rows.append(f"| {d.name} | {SUMMARY.get(d.name, m.get('summary', ''))} | {caught} | {first} |")
